@@ -229,6 +229,14 @@ def check(prog, run):
         c = "%s.unmarshall_datain on %s (%d bytes)" % (clsname, case["note"], case["length"])
         try:
             ps = I.explore(thm, max_paths=400)
+            if case.get("count"):
+                # ... and once more with every set iterated in the opposite order: what is reported, and in which order,
+                # must not depend on it
+                I.set_order_reversed = True
+                try:
+                    ps = ps + I.explore(thm, max_paths=400)
+                finally:
+                    I.set_order_reversed = False
         except AnalysisError as e:
             if e.reason == "path-limit":
                 run.notes.append("%s: undecided (%s)" % (c, e.detail))     # the other C04 rules still apply to this decoder
@@ -252,7 +260,19 @@ def check(prog, run):
                 for p in ps:
                     v = p.value.get(key) if isinstance(p.value, dict) else None
                     got.add(len(v) if isinstance(v, list) and not I.list_is_summary(v) else repr(v)[:60])
-                if got == {n}:
+                disorder = None
+                for p in ps:
+                    v = p.value.get(key) if isinstance(p.value, dict) else None
+                    if isinstance(v, list) and not I.list_is_summary(v):
+                        firsts = [first_position(x) for x in v]
+                        if all(f is not None for f in firsts) and firsts != sorted(firsts):
+                            disorder = firsts
+                if got == {n} and disorder:
+                    run.violation("everything-inside-the-length-is-returned", c + " (order)",
+                                  "result[%r] lists what the response carries at bytes %s in that order: not the order the device sent "
+                                  "(or an order that depends on how a set happens to be iterated)" % (key, disorder),
+                                  prog.rel(f.module), f.node.lineno, f.qualname)
+                elif got == {n}:
                     run.ok("everything-inside-the-length-is-returned", c)
                 else:
                     run.violation("everything-inside-the-length-is-returned", c,
@@ -263,6 +283,31 @@ def check(prog, run):
         run.unconstrained.append(name)
     run.count("decoders", ndec)
     run.floor("decoders with reference structure", ndec, 15)
+
+
+def first_position(v):
+    """the lowest response byte a decoded value is made of (None when it carries no device bits)"""
+    out = []
+
+    def rec(x):
+        x = norm_int(x)
+        if isinstance(x, Sym) and x.bits is not None:
+            for b in x.bits:
+                if isinstance(b, frozenset):
+                    for a in b:
+                        if a is not True and a[0] == "m" and isinstance(a[2], tuple) and isinstance(a[2][1], int):
+                            out.append(a[2][1])
+        elif isinstance(x, dict):
+            for y in x.values():
+                rec(y)
+        elif isinstance(x, (list, tuple)):
+            for y in x:
+                rec(y)
+        elif isinstance(x, Buf) and x.cells is not None:
+            for y in x.cells:
+                rec(y)
+    rec(v)
+    return min(out) if out else None
 
 
 def describe_fact(f):
